@@ -4,6 +4,8 @@ CONSTANTS
   DevBench19Pass = FALSE
   DevSelfUnfiltered = FALSE
   DevWarnLeak = FALSE
+  DevStaleSurvivesOff = FALSE
+  Prevs = {"none"}
   Modes = {"on", "warn", "off"}
   Allows = {TRUE, FALSE}
   Ctls = {"any", "loopback", "private", "public"}
